@@ -129,6 +129,10 @@ def w_hod(ctx, rng, idx):
         A = general_operator(rng, dims, cplx, rmax=2)
     elif int(np.prod(dims)) > 12 and order > 4:
         order = 4
+    # the library forms (hA)^(2k-1) as TT operator products without truncation: operator ranks grow like r^(order-1)
+    # (observed: a rank-9 generator at order 6 asked for a 26 GiB core).  Keep that product representable.
+    while order > 2 and max(A.ranks) ** (order - 1) > 1500:
+        order = order - 2 if order % 2 == 0 else 2
     h = float(rng.uniform(0.05, 0.4))
     N = int(rng.integers(1, 5))
     prev = None
